@@ -35,6 +35,14 @@ Ltac not_loop x :=
   | context [AttributeDef_parseFrom_loop1] => fail
   | context [AttributeDefaultValueDef_parseFrom_range1] => fail
   | context [AttributeValueForObjectDef_parseFrom_range1] => fail
+  | context [ident_list_loop] => fail
+  | context [new_symbols_loop] => fail
+  | context [value_descriptions_loop] => fail
+  | context [comma_idents_loop] => fail
+  | context [signals_loop] => fail
+  | context [transmitters_loop] => fail
+  | context [comma_strings_loop] => fail
+  | context [attribute_value] => fail
   | _ => idtac
   end.
 
@@ -95,5 +103,57 @@ Section Equiv.
   Lemma TP_UnknownDef_parseFrom_eq : forall st,
     run_as UnknownDef_to_def (UnknownDef_parseFrom ilh idh F UnknownDef_zero) st = parse_unknown ilh idh F st.
   Proof. intros. unfold UnknownDef_parseFrom, parse_unknown, parse_unknown_with. norm. pt_records. steps. Qed.
+
+  (** ---------------------------------------------------------------- loops that append to a list field
+      translated: the receiver with the field grown by [++ [x]]; hand model: a reversed accumulator *)
+
+  Ltac use_ih IH H :=
+    match goal with
+    | |- _ = match _ ?r ?s with _ => _ end =>
+      rewrite IH with (racc := r); [norm; pt_records; fsteps | pt_records; simpl; rewrite H; reflexivity]
+    end.
+  Ltac loop_proof d IH H :=
+    norm; pt_records; steps;
+    try (destruct d; simpl in *; subst; reflexivity);
+    try (use_ih IH H).
+  Ltac main_loop L :=
+    norm; pt_records; steps; try (rewrite L with (racc := []) by reflexivity; norm; pt_records; fsteps).
+
+  Lemma NodesDef_loop_eq : forall f d racc st, NodesDef_NodeNames d = rev racc ->
+    NodesDef_parseFrom_loop1 ilh idh F f d st
+    = bind (ident_list_loop ilh idh F f racc) (fun l => ret (NodesDef_set_NodeNames d l)) st.
+  Proof.
+    induction f; intros d racc st H; [reflexivity|].
+    cbn [NodesDef_parseFrom_loop1 ident_list_loop]. loop_proof d IHf H.
+  Qed.
+
+  Lemma TP_NodesDef_parseFrom_eq : forall st,
+    run_as NodesDef_to_def (NodesDef_parseFrom ilh idh F NodesDef_zero) st = parse_nodes ilh idh F st.
+  Proof. intros. unfold NodesDef_parseFrom, parse_nodes. main_loop NodesDef_loop_eq. Qed.
+
+  Lemma NewSymbolsDef_loop_eq : forall f d racc st, NewSymbolsDef_Symbols d = rev racc ->
+    NewSymbolsDef_parseFrom_loop1 ilh idh F f d st
+    = bind (new_symbols_loop ilh idh F f racc) (fun l => ret (NewSymbolsDef_set_Symbols d l)) st.
+  Proof.
+    induction f; intros d racc st H; [reflexivity|].
+    cbn [NewSymbolsDef_parseFrom_loop1 new_symbols_loop]. loop_proof d IHf H.
+  Qed.
+
+  Lemma TP_NewSymbolsDef_parseFrom_eq : forall st,
+    run_as NewSymbolsDef_to_def (NewSymbolsDef_parseFrom ilh idh F NewSymbolsDef_zero) st = parse_new_symbols ilh idh F st.
+  Proof. intros. unfold NewSymbolsDef_parseFrom, parse_new_symbols. main_loop NewSymbolsDef_loop_eq. Qed.
+
+  Lemma MessageTransmittersDef_loop_eq : forall f d racc st, MessageTransmittersDef_Transmitters d = rev racc ->
+    MessageTransmittersDef_parseFrom_loop1 ilh idh F f d st
+    = bind (transmitters_loop ilh idh F f racc) (fun l => ret (MessageTransmittersDef_set_Transmitters d l)) st.
+  Proof.
+    induction f; intros d racc st H; [reflexivity|].
+    cbn [MessageTransmittersDef_parseFrom_loop1 transmitters_loop]. loop_proof d IHf H.
+  Qed.
+
+  Lemma TP_MessageTransmittersDef_parseFrom_eq : forall st,
+    run_as MessageTransmittersDef_to_def (MessageTransmittersDef_parseFrom ilh idh F MessageTransmittersDef_zero) st
+    = parse_message_transmitters ilh idh F st.
+  Proof. intros. unfold MessageTransmittersDef_parseFrom, parse_message_transmitters. main_loop MessageTransmittersDef_loop_eq. Qed.
 
 End Equiv.
